@@ -25,19 +25,22 @@ def qOppositeAxis (len : V3 α → α) (f0 : V3 α) : V3 α :=
   else if f0.y * f0.y ≤ f0.z * f0.z then nrm len (cross f0 ⟨0, 1, 0⟩)
   else nrm len (cross f0 ⟨0, 0, 1⟩)
 
-/-- `Quat::setRotation(from, to)` as documented in ImathQuat.h -/
-def quatSetRotationSpec (len : V3 α → α) (fromDir toDir : V3 α) : Quat α :=
+/-- `Quat::setRotation(from, to)` as documented in ImathQuat.h: angle ≤ π/2 — one half-way quaternion; larger angles — product of two
+half rotations through `h0 = (f0 + t0)^`; `|f0 + t0|² ≤ (8 ε)²` (opposite to within the rounding of the two normalisations, in particular
+exactly opposite) — half-turn about an axis perpendicular to `f0` -/
+def quatSetRotationSpec (len : V3 α → α) (teps : α) (fromDir toDir : V3 α) : Quat α :=
   let f0 := nrm len fromDir
   let t0 := nrm len toDir
   if 0 ≤ dot f0 t0 then qInternal len f0 t0
   else
-    let h0 := nrm len (vadd f0 t0)
+    let s := vadd f0 t0
+    let h0 : V3 α := if (8 * teps) * (8 * teps) < dot s s then nrm len s else ⟨0, 0, 0⟩
     if dot h0 h0 = 0 then ⟨0, qOppositeAxis len f0⟩
     else Gen.Quat.mulAssign (qInternal len f0 h0) (qInternal len h0 t0)
 
 set_option maxHeartbeats 8000000 in
-theorem quatSetRotation_eq_spec (tmin : α) (sqrt : α → α) (q : Quat α) (fromDir toDir : V3 α) :
-    Gen.Frame.quatSetRotation tmin sqrt q fromDir toDir = quatSetRotationSpec (Gen.V3.length tmin sqrt) fromDir toDir := by
+theorem quatSetRotation_eq_spec (tmin teps : α) (sqrt : α → α) (q : Quat α) (fromDir toDir : V3 α) :
+    Gen.Frame.quatSetRotation tmin teps sqrt q fromDir toDir = quatSetRotationSpec (Gen.V3.length tmin sqrt) teps fromDir toDir := by
   obtain ⟨fx, fy, fz⟩ := fromDir
   obtain ⟨tx, ty, tz⟩ := toDir
   simp only [Gen.Frame.quatSetRotation, quatSetRotationSpec, qInternal, qOppositeAxis, Gen.Quat.mulAssign, nrm, cross, dot, vadd]
